@@ -858,7 +858,7 @@ pub fn suite_shapes(ctx: &Ctx, thorough: bool) {
     for n in [23usize, 24, 25, 64, 300, if thorough { 70000 } else { 1025 }] {
         types_v.push(inflate("aB", n)); types_v.push(format!("{}Z", inflate("a", n))); types_v.push(format!("{}!", inflate("a", n)));
     }
-    strs_v.push(inflate("aB/", 24)); strs_v.push(inflate("é", 300)); strs_v.push("{x}`<>\"|^ \\".to_string());
+    strs_v.push(inflate("aB/", 24)); strs_v.push(inflate("é", 300)); strs_v.push("{x}`<>\"|^ \\".to_string()); strs_v.push("{fmt}".to_string()); strs_v.push("`x\"<>|^~".to_string());
     for ty in &types_v { let ty = ty.as_str(); for ns in &strs_v { let ns = ns.as_str(); for name in &strs_v { let name = name.as_str(); for ver in &strs_v { let ver = ver.as_str();
         ctx.eval();
         let mk = |o: Result<Obs, String>, s: Option<String>| (o, s);
